@@ -227,14 +227,19 @@ class SchemaRaises(SchemaBase):
             raise ValueError(f"expected type of type {type(expected_type)} unexpected")
         return None
 
-    def check_args(self, *, arg_names: List[str], fname: str, args, kwargs) -> None:
+    def check_args(
+        self, *, arg_names: List[str], fname: str, args, kwargs, no_values=()
+    ) -> None:
+        """
+        :param no_values: names of parameters that took no value (an empty *args): nothing to check, not missing
+        """
         if not SchemaCheckSwitch().is_on():
             return
         assert isinstance(fname, str)
         # check positional args (by name)
-        seen = set()
+        seen = set(no_values)
         msgs = []
-        for i in range(len(args)):
+        for i in range(min(len(args), len(arg_names))):
             k = arg_names[i]
             observed_value = args[i]
             seen.add(k)
@@ -284,16 +289,18 @@ class SchemaRaises(SchemaBase):
             check_args = args
             check_kwargs = kwargs
             more_positional = []
+            no_values = []
             try:
                 # name the values the way Python binds them (defaults, *args, keyword only)
                 bound_args = type_check_signature.bind(*args, **kwargs)
                 bound_args.apply_defaults()
                 check_args = []
                 check_kwargs = dict(bound_args.arguments)
+                extra_keywords = dict()
                 for p_name, p_def in type_check_signature.parameters.items():
                     if p_def.kind is p_def.VAR_KEYWORD:
                         # keywords caught by **kwargs are named arguments
-                        check_kwargs.update(check_kwargs.pop(p_name, {}))
+                        extra_keywords = check_kwargs.pop(p_name, {})
                     elif p_def.kind is p_def.VAR_POSITIONAL:
                         # *args: every element stands for the name (checked below), none if empty
                         extra_positional = check_kwargs.pop(p_name, ())
@@ -302,6 +309,12 @@ class SchemaRaises(SchemaBase):
                             more_positional = more_positional + [
                                 (p_name, v) for v in extra_positional[1:]
                             ]
+                        else:
+                            no_values.append(p_name)
+                for k, v in extra_keywords.items():
+                    # a parameter's own value is not replaced by a keyword of the same name
+                    if (k not in check_kwargs) and (k not in no_values):
+                        check_kwargs[k] = v
             except TypeError:
                 pass  # not a valid call: report by position as before
             type_check_self.check_args(
@@ -309,6 +322,7 @@ class SchemaRaises(SchemaBase):
                 arg_names=type_check_arg_names,
                 args=check_args,
                 kwargs=check_kwargs,
+                no_values=no_values,
             )
             for p_name, v in more_positional:
                 more_kwargs = dict(check_kwargs)
@@ -318,6 +332,7 @@ class SchemaRaises(SchemaBase):
                     arg_names=type_check_arg_names,
                     args=check_args,
                     kwargs=more_kwargs,
+                    no_values=no_values,
                 )
             type_check_return_value = type_check_fn(*args, **kwargs)
             type_check_self.check_return(
